@@ -24,6 +24,7 @@ package c16
 
 import (
 	"bytes"
+	"crypto/tls"
 	"encoding/binary"
 	"errors"
 	"fmt"
@@ -65,6 +66,7 @@ type scriptConn struct {
 	reads  int
 	closed bool
 	wrote  bytes.Buffer
+	chunk  int // > 0: a Read returns at most this many bytes (a stream may arrive in any pieces)
 }
 
 func (c *scriptConn) Read(b []byte) (int, error) {
@@ -76,6 +78,9 @@ func (c *scriptConn) Read(b []byte) (int, error) {
 	}
 	if c.off >= len(c.data) {
 		return 0, io.EOF
+	}
+	if c.chunk > 0 && len(b) > c.chunk {
+		b = b[:c.chunk]
 	}
 	n := copy(b, c.data[c.off:])
 	c.off += n
@@ -114,6 +119,7 @@ type streamCase struct {
 	HSVal  byte        `json:"hs_val"`
 	Frames []frameSpec `json:"frames"`
 	Key    uint64      `json:"key"`
+	Chunk  int         `json:"read_chunk"`
 }
 
 const selfProto, peerProto = mangos.ProtoPair, mangos.ProtoPair
@@ -182,6 +188,7 @@ func genStream(t *rapid.T) *streamCase {
 	sc.IPC = rapid.Bool().Draw(t, "ipc")
 	sc.L = rapid.SampledFrom([]int{1, 7, 8, 64, 1000, 1 << 20}).Draw(t, "L")
 	sc.Key = rapid.Uint64().Draw(t, "key")
+	sc.Chunk = rapid.SampledFrom([]int{0, 0, 1, 2, 3, 5, 7, 8, 9, 64}).Draw(t, "readChunk")
 	sc.HS = rapid.SampledFrom([]string{"ok", "ok", "ok", "ok", "deviate", "truncated", "otherproto"}).Draw(t, "hs")
 	sc.HSPos = rapid.IntRange(0, 7).Draw(t, "hspos")
 	sc.HSVal = rapid.Byte().Draw(t, "hsval")
@@ -223,7 +230,7 @@ func genStream(t *rapid.T) *streamCase {
 // runStream plays the stream and compares; returns (key, message) of a violation or "".
 func runStream(sc *streamCase) (string, string) {
 	stream, hsOK, want, failAt, failNoRead := sc.build()
-	conn := &scriptConn{data: stream}
+	conn := &scriptConn{data: stream, chunk: sc.Chunk}
 	info := transport.ProtocolInfo{Self: selfProto, Peer: peerProto, SelfName: "pair", PeerName: "pair"}
 	var p transport.ConnPipe
 	if sc.IPC {
@@ -332,7 +339,10 @@ func TestC16Stream(t *testing.T) {
 		}
 		stats.Eval()
 		hostile := sc.HS != "ok"
-		canon := fmt.Sprintf("A|%v|%d|%s|", sc.IPC, sc.L, sc.HS)
+		canon := fmt.Sprintf("A|%v|%d|%s|%d|", sc.IPC, sc.L, sc.HS, sc.Chunk)
+		if sc.Chunk > 0 && sc.Chunk < 8 {
+			stats.Class("prefix_split_over_reads")
+		}
 		for _, f := range sc.Frames {
 			if f.Kind != "ok" {
 				hostile = true
@@ -380,7 +390,7 @@ func FuzzStream(f *testing.F) {
 	f.Add(append(append([]byte{}, valid...), 0, 0, 0, 0, 0, 0x10, 0, 1), false, uint8(5))
 	f.Fuzz(func(t *testing.T, data []byte, ipc bool, lsel uint8) {
 		L := []int{1, 7, 8, 64, 1000, 1 << 20}[int(lsel)%6]
-		conn := &scriptConn{data: data}
+		conn := &scriptConn{data: data, chunk: int(lsel>>4) % 10}
 		info := transport.ProtocolInfo{Self: selfProto, Peer: peerProto}
 		var p transport.ConnPipe
 		if ipc {
@@ -617,8 +627,24 @@ type hostileScript struct {
 	Arg  int64  `json:"arg"`
 }
 
-func dialRaw(addr string) (net.Conn, error) {
+// dialRaw opens a raw connection to a listener; for tls+tcp either below TLS (plain=true: the
+// peer has not even started its TLS handshake) or as a TLS client that has completed it.
+func dialRaw(addr string, plain bool) (net.Conn, error) {
 	switch {
+	case strings.HasPrefix(addr, "tls+tcp://"):
+		hp := strings.TrimPrefix(addr, "tls+tcp://")
+		c, err := net.DialTimeout("tcp", hp, 3*time.Second)
+		if err != nil || plain {
+			return c, err
+		}
+		tc := tls.Client(c, fixture.TLSClient())
+		_ = tc.SetDeadline(time.Now().Add(3 * time.Second))
+		if err := tc.Handshake(); err != nil {
+			_ = c.Close()
+			return nil, err
+		}
+		_ = tc.SetDeadline(time.Time{})
+		return tc, nil
 	case strings.HasPrefix(addr, "tcp://"):
 		return net.DialTimeout("tcp", strings.TrimPrefix(addr, "tcp://"), 3*time.Second)
 	case strings.HasPrefix(addr, "ipc://"):
@@ -648,7 +674,7 @@ func TestC16HostilePeers(t *testing.T) {
 	stats.ScaledChecks(3, 5, func() {
 		rapid.Check(t, func(t *rapid.T) {
 			p := fixture.Protos[rapid.IntRange(0, len(fixture.Protos)-1).Draw(t, "ctor")]
-			tr := rapid.SampledFrom([]string{"tcp", "tcp", "ipc"}).Draw(t, "transport")
+			tr := rapid.SampledFrom([]string{"tcp", "tcp", "ipc", "tls+tcp"}).Draw(t, "transport")
 			L := rapid.SampledFrom([]int{64, 1000, 1 << 20}).Draw(t, "L")
 			nh := rapid.IntRange(1, 4).Draw(t, "hostile")
 			scripts := make([]hostileScript, nh)
@@ -683,8 +709,8 @@ func TestC16HostilePeers(t *testing.T) {
 					_ = c.Close()
 				}
 			}()
-			open := func() net.Conn {
-				c, err := dialRaw(addr)
+			open := func(plain bool) net.Conn {
+				c, err := dialRaw(addr, plain)
 				if err != nil {
 					t.Fatalf("harness: raw dial: %v", err)
 				}
@@ -693,7 +719,8 @@ func TestC16HostilePeers(t *testing.T) {
 			}
 			for _, sc := range scripts {
 				if sc.Kind == "silent" {
-					open()
+					// on TLS: silent below TLS (even arg) or silent after the TLS handshake (odd arg)
+					open(sc.Arg%2 == 0)
 				}
 			}
 			// control peer: must get in promptly in spite of the silent ones
@@ -707,7 +734,16 @@ func TestC16HostilePeers(t *testing.T) {
 			}
 			pev := fixture.Hook(P)
 			t0 := time.Now()
-			if _, err := fixture.Dial(P, addr); err != nil {
+			// asynchronous dial: a listener stalled by a silent peer must show up as a delayed
+			// attach, not as a harness goroutine stuck in Dial
+			copts := fixture.DialOpts(tr)
+			if copts == nil {
+				copts = map[string]interface{}{}
+			}
+			copts[mangos.OptionDialAsynch] = true
+			copts[mangos.OptionReconnectTime] = 5 * time.Millisecond
+			copts[mangos.OptionMaxReconnectTime] = 5 * time.Millisecond
+			if err := P.DialOptions(addr, copts); err != nil {
 				fail("control-connect", "control peer cannot connect: %v", err)
 				return
 			}
@@ -811,6 +847,7 @@ func TestC16HostilePeers(t *testing.T) {
 			detBefore := sev.Detached()
 			// hostile peers act
 			ipc := tr == "ipc"
+			_ = ipc
 			myHdr := wire.Header(p.Peer) // what a legitimate peer of S would send
 			attached := 0
 			for _, sc := range scripts {
@@ -818,7 +855,7 @@ func TestC16HostilePeers(t *testing.T) {
 					continue
 				}
 				a0, d0 := sev.Attached(), sev.Detached()
-				c := open()
+				c := open(false)
 				_ = c.SetDeadline(time.Now().Add(3 * time.Second))
 				balancer := p.Name == "req" || p.Name == "xreq" || p.Name == "push" || p.Name == "xpush"
 				wasAttached := false
